@@ -21,6 +21,7 @@ package surveyor
 //@   guarded_by sock.Mutex: timer active
 //@   immutable: recvQ id ctx sock
 //@   nullable: timer
+//@   elem_invariant recvQ: !shared(elem)
 //@
 //@ func (*context).close
 //@   holds c.s.Mutex
